@@ -72,7 +72,7 @@ pub fn gen_irq_prog(rng: &mut Rng) -> IrqProg {
         a.bcc16(6, &l);
     }
     // quiescent tail with interrupts enabled, then results and exit
-    a.mov_w_imm(5, 120);
+    a.mov_w_imm(5, 400);
     a.label("tail");
     a.dec_w(5);
     a.bcc8(6, "tail");
@@ -377,7 +377,7 @@ pub fn drive_b(p: &IrqProg, sched: &Schedule, sp: u32) -> (Final, EventLog, Vec<
 
 pub fn gen_schedule(rng: &mut Rng, n0: u64, p: &IrqProg) -> Schedule {
     let mut s: Schedule = HashMap::new();
-    let span = n0.saturating_sub(260).max(10);
+    let span = n0.saturating_sub(820).max(10);
     let vec_pool: Vec<u8> = (1..64u8).filter(|v| !(p.uses_trap && *v == 9)).collect();
     let style = rng.below(5);
     let nreq = match style {
@@ -422,9 +422,16 @@ pub fn gen_schedule(rng: &mut Rng, n0: u64, p: &IrqProg) -> Schedule {
             }
         }
     }
+    if rng.chance(1, 5) {
+        // a very large burst (queue capacity): 20-70 requests at one boundary, vectors repeating
+        let b = rng.below(span);
+        for _ in 0..(20 + rng.below(50)) {
+            s.entry(b).or_default().push(*rng.pick(&vec_pool));
+        }
+    }
     if rng.chance(1, 3) {
         // requests just before the quiescent tail ends
-        s.entry(n0.saturating_sub(130)).or_default().push(*rng.pick(&vec_pool));
+        s.entry(n0.saturating_sub(400)).or_default().push(*rng.pick(&vec_pool));
     }
     s
 }
